@@ -28,15 +28,50 @@ def report_struct(ctx):
                 elif prog.adt_of(args[0])[0] == "std::path::PathBuf":
                     pv += 1
         if hv >= 2 and pv >= 1:
-            best = path
+            # the report is the type a caller gets (an internal accumulator struct of the scan may look alike)
+            if best is None or (adt.get("reachable") and not prog.adts[best].get("reachable")):
+                best = path
     return best
 
 
 def scan_body(ctx, report):
+    """(flat view of the function that builds the report, the aggregate statement in that view): per-directory
+    helpers of the scan are part of the view."""
     for b in ctx.prog.bodies.values():
         for bb in b.normal_blocks():
-            for s in b.stmts(bb):
+            for i, s in enumerate(b.stmts(bb)):
                 if s["k"] == "assign" and s["rv"]["k"] == "agg" and s["rv"].get("def") == report:
+                    from .. import flat as flatmod
+                    prog = ctx.prog
+                    hash_ty = ctx.anchors.get("HASH")
+
+                    def carries_lists(ty):
+                        # &mut Vec<hash|PathBuf>, or &mut of a crate-local struct with such fields
+                        t = prog.types[ty]
+                        if not (t.get("k") == "ref" and t.get("mut")):
+                            return False
+                        def has_list(ix, seen=()):
+                            tt = prog.types[ix]
+                            if tt.get("k") == "adt" and tt.get("def") == "std::vec::Vec":
+                                a = [x for x in tt.get("args", []) if isinstance(x, int)]
+                                return bool(a) and prog.adt_of(a[0])[0] in (hash_ty, "std::path::PathBuf")
+                            if tt.get("k") == "adt" and tt.get("def") in prog.adts and tt["def"] not in seen:
+                                return any(has_list(f["ty"], seen + (tt["def"],))
+                                           for v in prog.adts[tt["def"]]["variants"] for f in v["fields"])
+                            return False
+                        return has_list(t["in"])
+
+                    def policy(site, tgt, how):
+                        # only the helpers that fill the report's lists through a reference are part of the scan
+                        if how != "direct" or tgt.reachable or tgt.is_closure:
+                            return False
+                        return any(carries_lists(tgt.locals[k]) for k in range(1, tgt.argc + 1))
+                    V = flatmod.flatten(prog, b, policy, 3)
+                    for fb in V.normal_blocks():
+                        if V.origin_key(fb) == (b.path, bb):
+                            st = V.blocks[fb]["stmts"][i]
+                            if st["k"] == "assign" and st["rv"]["k"] == "agg" and st["rv"].get("def") == report:
+                                return V, st
                     return b, s
     return None, None
 
@@ -274,29 +309,37 @@ def membership_guard(ctx, r, b, site, report):
 
 
 def _field_locals(ctx, b, agg, report):
-    """report field name -> local that is moved into it."""
+    """report field name -> the list that is moved into it, as a canonical place (local, field names): a local
+    vector, or a vector field of an accumulator struct that a helper fills through a reference."""
     out = {}
     for name, op in zip(agg["rv"]["fields"], agg["rv"]["ops"]):
         pl = place_of(op)
-        if pl is not None and not pl["p"]:
-            l = pl["l"]
-            for _ in range(6):
-                defs = b.assignments().get(l, [])
-                if len(defs) == 1 and defs[0][1] != "term" and defs[0][2]["k"] == "use":
-                    p2 = place_of(defs[0][2]["op"])
-                    if p2 is not None and not p2["p"]:
-                        l = p2["l"]
-                        continue
+        if pl is None:
+            continue
+        h = cfgutil.canon_place(b, pl)
+        for _ in range(6):
+            if h[1]:
                 break
-            out[name] = l
+            defs = b.assignments().get(h[0], [])
+            if len(defs) == 1 and defs[0][1] != "term" and defs[0][2]["k"] == "use":
+                p2 = place_of(defs[0][2]["op"])
+                if p2 is not None:
+                    h = cfgutil.canon_place(b, p2)
+                    continue
+            break
+        out[name] = h
     return out
 
 
-def _pushes_to(ctx, b, local):
+def _pushes_to(ctx, b, handle):
+    if not isinstance(handle, tuple):
+        handle = (handle, ())
     out = []
     for s in b.calls():
         if (s.path or "") in ("std::vec::Vec::push",) and s.term["args"]:
-            if ctx.world.borrowed_local(b, s.term["args"][0]) == local:
+            if not handle[1] and ctx.world.borrowed_local(b, s.term["args"][0]) == handle[0]:
+                out.append(s)
+            elif cfgutil.canon_of_borrow(b, s.term["args"][0]) == handle:
                 out.append(s)
     return out
 
@@ -336,6 +379,14 @@ def hash_list_origins(ctx, r, sb, agg, report):
             continue
         pushes = _pushes_to(ctx, sb, l)
         verdict = []
+        if not pushes:
+            # the list is collected from an iterator pipeline (`map.into_keys().filter(..).collect()`)
+            h0 = l if isinstance(l, tuple) else (l, ())
+            _f, start = c04._filter_chain(ctx, sb, sl, {"copy": {"l": h0[0], "p": []}})
+            lv0 = sl.leaves_of_operand(start)
+            if lv0 and start is not None and all(x[0] == "call" and _map_filled_from_index(ctx, sb, sl, x) for x in lv0):
+                r.ok("hash-list:%s" % f["name"], sb, "%s is collected from the keys of a map filled from the index" % f["name"])
+                continue
         for p in pushes:
             kinds = set()
             for x in sl.leaves_of_operand(p.term["args"][1]):
@@ -393,6 +444,15 @@ def _map_filled_from_index(ctx, sb, sl, leaf):
                         cands.add(l)
                         changed = True
     for s in sb.calls():
+        if (s.path or "").endswith("::extend") and s.term["args"] and \
+                ctx.world.borrowed_local(sb, s.term["args"][0]) in cands and len(s.term["args"]) > 1:
+            # map.extend(state.iter().map(..)): the pipeline starts at an index read
+            trail = []
+            _f, start = c04._filter_chain(ctx, sb, sl, s.term["args"][1], extra=("map",), trail=trail)
+            for z in list(sl.leaves_of_operand(start)) + trail:
+                if z[0] == "call" and "INDEX_READ" in sem_set(
+                        ctx.may.site_events(Site(sb, z[2], sb.blocks[z[2]]["term"]))):
+                    return True
         if not (s.path or "").endswith("::insert") or not s.term["args"]:
             continue
         if ctx.world.borrowed_local(sb, s.term["args"][0]) not in cands:
@@ -526,7 +586,29 @@ def polarity(ctx, r, sb, agg, report):
         l = fl.get(name)
         if l is None:
             continue
-        for p in _pushes_to(ctx, sb, l):
+        pushes_ = _pushes_to(ctx, sb, l)
+        if not pushes_:
+            # collected from a pipeline: the filter predicate decides membership
+            h0 = l if isinstance(l, tuple) else (l, ())
+            filters, start = c04._filter_chain(ctx, sb, sl, {"copy": {"l": h0[0], "p": []}})
+            kinds = set()
+            for fc in filters:
+                fsl = Slicer(ctx.world, fc)
+                rl = fsl.leaves_of_place({"l": 0, "p": []})
+                neg = False
+                # `!set.contains(x)`: Not of a contains call
+                for bb2 in fc.normal_blocks():
+                    for st in fc.stmts(bb2):
+                        if st["k"] == "assign" and st["lhs"]["l"] == 0 and st["rv"]["k"] == "unop" and st["rv"]["op"] == "Not":
+                            neg = True
+                if any(x[0] == "call" and x[1] == "std::collections::HashSet::contains" for x in rl):
+                    kinds.add("seen-contains:%s" % ("false" if neg else "true"))
+            if filters:
+                r.check("seen-contains:false" in kinds, "polarity:%s:missing" % name, sb,
+                        "%s = keys of the index-derived map that the disk walk did not see (filter: %s)" % (name, sorted(kinds)),
+                        "%s is collected under a filter %s (expected: not seen on disk)" % (name, sorted(kinds)))
+            continue
+        for p in pushes_:
             pushed = sl.leaves_of_operand(p.term["args"][1])
             verdicts = []
             for bb in sb.normal_blocks():
@@ -534,9 +616,12 @@ def polarity(ctx, r, sb, agg, report):
                 if not c:
                     continue
                 edges = cfgutil.switch_edges(sb, bb)
+                listed = [v for v in edges if v != "otherwise"]
                 for val, tgt in edges.items():
                     if tgt is None or not cfgutil.edge_dominates(sb, (bb, tgt), p.bb):
                         continue
+                    if val == "otherwise" and listed in ([0], [1]):
+                        val = 1 - listed[0]        # the catch-all arm of a two-valued test is the other value
                     if c[0] == "discr":
                         lv = sl.leaves_of_place(c[1])
                         for x in lv:
